@@ -141,6 +141,35 @@ fn run_row(seed: u64, row: u64, big: bool, st: &mut Stats) {
     let mut stored: std::collections::BTreeMap<u64, Vec<f32>> = std::collections::BTreeMap::new();
     let mut pool: Vec<Vec<f32>> = Vec::new();
     let split = rng.below(n as u64 + 1) as usize;
+    // malformed batches (first element too short / too long / empty, mixed with valid ones) into the still empty
+    // index: they must be refused or skipped, never adopted as the graph's dimension
+    if rng.below(3) == 0 {
+        let bad_len = match rng.below(4) {
+            0 => dim.saturating_sub(1).max(1),
+            1 => 1,
+            2 => dim + 1,
+            _ => dim / 2 + 1,
+        };
+        if bad_len != dim {
+            let bad: Vec<f32> = (0..bad_len).map(|i| if i == 0 { 1.0 } else { 0.0 }).collect();
+            let good = gen_vec(&mut rng, dim, metric, 4000);
+            let batch: Vec<(&[f32], usize)> = if rng.below(2) == 0 { vec![(bad.as_slice(), 900_001), (good.as_slice(), 900_002)] } else { vec![(bad.as_slice(), 900_001)] };
+            st.inserts += batch.len() as u64;
+            if idx.parallel_insert_batch(&batch).is_ok() && idx.len() > 0 {
+                // whatever was accepted must be searchable with a query of the index dimension
+                if batch.len() == 2 {
+                    stored.insert(900_002, good.clone());
+                }
+                let _ = idx.knn_search(&good, 1);
+            }
+            if stored.is_empty() && idx.len() > 0 {
+                // something of the malformed batch is in the graph: results can no longer be judged against the reference
+                let q = gen_vec(&mut rng, dim, metric, 4001);
+                let _ = idx.knn_search(&q, 2);
+                return;
+            }
+        }
+    }
     // phase A: sequential inserts (duplicates of vectors and ids on purpose)
     for i in 0..split {
         let v = if !pool.is_empty() && rng.below(5) == 0 { pool[rng.below(pool.len() as u64) as usize].clone() } else { gen_vec(&mut rng, dim, metric, i) };
